@@ -98,6 +98,27 @@ impl<K, V, S> HashMap<K, V, S> {
     }
 }
 
+impl<K, V, S> HashMap<K, V, S> {
+    /// slot access through a case split over CONCRETE indices: a reference into the slot array at
+    /// a symbolic offset makes CBMC fall back to byte-level encodings of the whole array
+    #[inline(always)]
+    fn slot(&self, i: usize) -> &Option<(K, V)> {
+        match i {
+            0 => &self.slots[0],
+            1 => &self.slots[1],
+            _ => &self.slots[2],
+        }
+    }
+    #[inline(always)]
+    fn slot_mut(&mut self, i: usize) -> &mut Option<(K, V)> {
+        match i {
+            0 => &mut self.slots[0],
+            1 => &mut self.slots[1],
+            _ => &mut self.slots[2],
+        }
+    }
+}
+
 impl<K: Eq, V, S> HashMap<K, V, S> {
     fn find(&self, k: &K) -> Option<usize> {
         let mut i = 0;
@@ -114,14 +135,14 @@ impl<K: Eq, V, S> HashMap<K, V, S> {
 
     pub fn get(&self, k: &K) -> Option<&V> {
         match self.find(k) {
-            Some(i) => self.slots[i].as_ref().map(|(_, v)| v),
+            Some(i) => self.slot(i).as_ref().map(|(_, v)| v),
             None => None,
         }
     }
 
     pub fn get_mut(&mut self, k: &K) -> Option<&mut V> {
         match self.find(k) {
-            Some(i) => self.slots[i].as_mut().map(|(_, v)| v),
+            Some(i) => self.slot_mut(i).as_mut().map(|(_, v)| v),
             None => None,
         }
     }
@@ -132,8 +153,8 @@ impl<K: Eq, V, S> HashMap<K, V, S> {
 
     pub fn insert(&mut self, k: K, v: V) -> Option<V> {
         if let Some(i) = self.find(&k) {
-            let old = self.slots[i].take();
-            self.slots[i] = Some((k, v));
+            let old = self.slot_mut(i).take();
+            *self.slot_mut(i) = Some((k, v));
             return old.map(|(_, v)| v);
         }
         let mut i = 0;
@@ -151,7 +172,7 @@ impl<K: Eq, V, S> HashMap<K, V, S> {
 
     pub fn remove(&mut self, k: &K) -> Option<V> {
         match self.find(k) {
-            Some(i) => self.slots[i].take().map(|(_, v)| v),
+            Some(i) => self.slot_mut(i).take().map(|(_, v)| v),
             None => None,
         }
     }
@@ -165,13 +186,18 @@ pub struct Iter<'a, K, V> {
 impl<'a, K, V> Iterator for Iter<'a, K, V> {
     type Item = (&'a K, &'a V);
     fn next(&mut self) -> Option<Self::Item> {
-        while self.pos < CAP {
-            let i = self.pos;
-            self.pos += 1;
-            if let Some((k, v)) = &self.slots[i] {
-                return Some((k, v));
+        // the loop index is concrete after unwinding; only the comparison with `pos` is symbolic
+        let mut i = 0;
+        while i < CAP {
+            if i >= self.pos {
+                if let Some((k, v)) = &self.slots[i] {
+                    self.pos = i + 1;
+                    return Some((k, v));
+                }
             }
+            i += 1;
         }
+        self.pos = CAP;
         None
     }
 }
